@@ -8,7 +8,7 @@ sys.path.insert(0, os.path.join(fw.VERIF, 'harness', 'oracles'))
 import c14_ref as ref
 
 TITLE = 'Events resolve their keys and play as correctly timed server commands'
-TRANSLATED = ['Gen_builtins']
+TRANSLATED = ['Gen_builtins', 'Gen_proto']
 MODEL_TARGETS = ['model/Event.vo']
 ALLOWED_AXIOMS = []
 TRUSTED = [
@@ -51,6 +51,7 @@ def fq(s):
 
 
 def pnum(v):
+    if v[0] == 'G': return '(I %s)' % cz(v[1])       # a Group / Synth object used as target: its node id
     if v[0] == 'B': return '(I %s)' % cz(1 if v[1] else 0)
     if v[0] == 'I': return '(I %s)' % cz(v[1])
     if v[0] in ('F', 'R'): return '(F %s)' % fq(v[1])
@@ -66,7 +67,7 @@ def pscale(s, cfg):
 
 def pval(v, cfg='patched'):
     k = v[0]
-    if k in ('I', 'F'): return '(VNum %s)' % pnum(v)
+    if k in ('I', 'F', 'G'): return '(VNum %s)' % pnum(v)
     if k == 'R': return '(VRest %s)' % pnum(v)
     if k == 'S': return '(VSym "%s")' % v[1]
     if k == 'B': return '(VBool %s)' % fw.cbool(v[1])
@@ -281,6 +282,11 @@ def gen_keys_case(rng):
     return case
 
 
+# every accepted spelling of an add action (Node.add_actions: traditional, simple, one-letter, numbers; 2.0 == 2 and
+# True == 1 as dict keys) and of a target (node id as int or float, a Group or a Synth object)
+ADD_ACTIONS = [['S', x] for x in ('addToHead', 'addToTail', 'addBefore', 'addAfter', 'addReplace', 'head', 'tail', 'before',
+                                  'after', 'replace', 'h', 't', 'b', 'a', 'r')] + [I(n) for n in range(5)] + [F(2), F(3), ['B', True]]
+TARGETS = [I(0), I(1), I(5), F(5), ['G', 77, 'group'], ['G', 1, 'group'], ['G', 99, 'synth']]
 ZERO_KEYS = ['degree', 'note', 'midinote', 'mtranspose', 'gtranspose', 'root', 'octave', 'ctranspose', 'harmonic', 'detune',
              'amp', 'db', 'velocity', 'dur', 'stretch', 'legato', 'delta', 'sustain', 'pan', 'out', 'trig']
 
@@ -344,14 +350,13 @@ def gen_kvs(rng, mono=False, infinite=False, rests=True, edge=True, force_legato
                      ('cutoff', lambda: I(rng.randint(100, 5000)), 0.2), ('detune', lambda: numval(rng, 0, 4), 0.15),
                      ('harmonic', lambda: I(rng.randint(1, 3)), 0.15), ('out', lambda: I(rng.randint(0, 3)), 0.15),
                      ('db', lambda: rng.choice([I(-6), I(0), F(0)]), 0.1), ('velocity', lambda: rng.choice([I(0), I(64)]), 0.06),
-                     ('freq', lambda: rng.choice([I(0), F(0)]), 0.03), ('group', lambda: rng.choice([I(0), I(1), I(5)]), 0.12),
+                     ('freq', lambda: rng.choice([I(0), F(0)]), 0.03), ('group', lambda: rng.choice(TARGETS), 0.15),
                      ('node_id', lambda: rng.choice([I(0), I(7)]), 0.06),
                      ('send_gate', lambda: ['B', rng.random() < 0.5], 0.1), ('has_gate', lambda: ['B', rng.random() < 0.5], 0.05)):
         if rng.random() < pr and not any(x[0] == k for x in kvs):
             kvs.append([k, ['rep', f()] if rng.random() < 0.5 else seq(f, rng.randint(n, n + 1))])
-    if not mono and rng.random() < 0.15:
-        kvs.append(['add_action', ['rep', rng.choice([['S', 'addToTail'], ['S', 'tail'], ['S', 'addToHead'], ['S', 'h'], ['S', 'addAfter'],
-                                                      I(0), I(1), I(4)])]])
+    if not mono and rng.random() < 0.3:
+        kvs.append(['add_action', ['rep', rng.choice(ADD_ACTIONS)]])
     rng.shuffle(kvs)
     return kvs
 
@@ -510,7 +515,8 @@ REPLAY_KEYS = {
     'dur': lambda rng: rng.choice(DURS),
     'legato': lambda rng: rng.choice([F('1/2'), F(1), F('1/4'), I(1)]),
     'instrument': lambda rng: ['S', rng.choice(['c14a', 'c14b', 'c14c'])],
-    'group': lambda rng: rng.choice([I(0), I(1), I(5)]),
+    'group': lambda rng: rng.choice(TARGETS),
+    'add_action': lambda rng: rng.choice(ADD_ACTIONS),
     'send_gate': lambda rng: ['B', rng.random() < 0.5],
 }
 
@@ -851,6 +857,8 @@ def oracle_pat(case, res):
     if case.get('ctl') or case.get('raises') or case.get('twice') is not None:
         return []      # the reference knows neither controllers nor failing events
     txt = json.dumps(case['pat'])
+    if '["chain", [["par"' in txt or ('"dur"' in txt and '2047/2048' in txt):
+        return []      # the reference neither feeds a Ppar one input event per pull nor knows Pdur's tolerance window
     if '"par"' in txt and '"mono"' in txt:
         return []      # the reference does not place the release of a Pmono inside a Ppar
     exp, total = ref.expected_score(case)
@@ -866,7 +874,9 @@ def oracle_pat(case, res):
             return base * h + d
         return x
     want = sorted((t, cmd, name or '', [(k, val(v)) for k, v in ps]) for t, cmd, name, ps in exp)
-    have = sorted((Fraction(m['t']), m['cmd'], m.get('name', ''), [(k, Fraction(v[1])) for k, v in m.get('params', [])])
+    have = sorted((Fraction(m['t']), m['cmd'], m.get('name', ''),
+                   ([('#action', Fraction(m['action'])), ('#group', Fraction(m['group'][1]))] if m['cmd'] == 's_new' else [])
+                   + [(k, Fraction(v[1])) for k, v in m.get('params', [])])
                   for m in res['msgs'])
     bad = []
     if len(want) != len(have):
